@@ -100,8 +100,10 @@ class MidiTrack(object):
                 self.set_deltatime(self.delay)
                 self.delay = 0
                 if hasattr(x[2], "bpm"):
-                    self.set_deltatime(0)
+                    # the tempo event takes the pending rest as its delta
+                    # time; the notes follow it at once
                     self.set_tempo(x[2].bpm)
+                    self.set_deltatime(0)
                 self.play_NoteContainer(x[2])
                 self.set_deltatime(self.int_to_varbyte(tick))
                 self.stop_NoteContainer(x[2])
